@@ -59,6 +59,10 @@ func buildStack(r *rand.Rand, initial int) stack {
 		return stack{name: "precise", st: s, limit: s.GetLimit, busy: s.GetBusyCount, keys: []string{""}}
 	}
 	n := 1 + r.IntN(3)
+	lookup := r.IntN(2) == 0
+	if lookup && r.IntN(5) == 0 {
+		n = 0 // a lookup strategy without any named partition: every request runs on the built-in bucket for unknown keys
+	}
 	nums := make([]int, n)
 	rem := 32
 	names := []string{"a", "b", "c"}[:n]
@@ -66,14 +70,21 @@ func buildStack(r *rand.Rand, initial int) stack {
 		nums[i] = r.IntN(rem + 1)
 		rem -= nums[i]
 	}
-	if r.IntN(2) == 0 {
+	if lookup {
 		ps := map[string]*strategy.LookupPartition{}
+		if n == 0 { // the constructor wants at least one partition: it is removed again right away
+			ps["gone"] = strategy.NewLookupPartitionWithMetricRegistry("gone", 0.5, 1, core.EmptyMetricRegistryInstance)
+		}
 		for i, k := range names {
 			ps[k] = strategy.NewLookupPartitionWithMetricRegistry(k, float64(nums[i])/32, int32(1+r.IntN(9)), core.EmptyMetricRegistryInstance)
 		}
 		s, err := strategy.NewLookupPartitionStrategyWithMetricRegistry(ps, nil, int32(initial), core.EmptyMetricRegistryInstance)
 		if err != nil {
 			panic(err)
+		}
+		if n == 0 {
+			s.RemovePartition("gone")
+			return stack{name: "lookup", st: s, limit: s.Limit, nums: nums, keys: []string{"zz"}, unknown: false}
 		}
 		return stack{name: "lookup", st: s, limit: s.Limit, nums: nums, keys: names, unknown: true,
 			binLim: func(i int) int { v, _ := s.BinLimit(names[i]); return v }}
